@@ -65,7 +65,7 @@ def mutate_cases(dis, seed, per=150):
             continue
         if len(f) < 13:
             continue
-        idx = 15 if f[0] == "S" else 12           # stream / request bytes
+        idx = 15 if f[0].upper() == "S" else 12   # stream / request bytes
         if idx >= len(f):
             continue
         try:
@@ -87,7 +87,11 @@ def mutate_cases(dis, seed, per=150):
             g[idx] = bytes(m).hex() or "-"
             g[9] = rnd.choice([f[9], "0,0,-", "53,0,-", "31,0,-", "82,0,44637573746f6d"])
             g[10] = rnd.choice([f[10], "-1", "-1", "0", "1", "2"])
-            if f[0] == "S":
+            if rnd.randint(0, 3) == 0:            # a peer-supplied string from the whole byte range
+                g[rnd.randint(3, 7)] = bytes(rnd.randint(1, 255) for _ in range(rnd.randint(1, 8))).hex()
+            if rnd.randint(0, 7) == 0:            # the same session against the real qmail-queue / the stand-in
+                g[0] = g[0].swapcase()
+            if f[0].upper() == "S":
                 g[16] = rnd.choice([f[16], "-1", str(rnd.randint(0, 300))])
                 g = g[:17]
             out.add(" ".join(g))
@@ -97,7 +101,7 @@ def mutate_cases(dis, seed, per=150):
 def main():
     c = Check(PROP)
     ok = c.proofs("Nq.Props.C07", drivers=["drv_c07"])
-    s = c.build_repo(targets="qmail-smtpd qmail-qmtpd qmail-qmqpd")
+    s = c.build_repo(targets="qmail-smtpd qmail-qmtpd qmail-qmqpd qmail-queue")
     stats, samples, disagree, oracle, errors = {}, [], [], [], []
     neighbourhood = None
     nrand = NRANDOM[c.tier]
@@ -112,11 +116,82 @@ def main():
                 hs[name] = s.cc(os.path.join(VERIF, "harness", "c07_%s.c" % name), os.path.join(s.dir, "h_c07_" + name),
                                 link_like=like, objs_exclude=excl)
             hdate = s.cc(os.path.join(VERIF, "harness", "c07_date.c"), os.path.join(s.dir, "h_c07_date"), extra="fs.a")
-            env = {"C07_QQBIN": qq, "C07_TMP": s.dir}
+            # real-queue leg: the unmodified qmail-queue.c behind QMAILQUEUE, on a private queue directory
+            rqq = s.cc(os.path.join(VERIF, "harness", "c07_rqq.c"), os.path.join(s.dir, "c07_rqq"),
+                       link_like="qmail-queue", objs_exclude=["auto_qmail.o"])
+            split = int(open(os.path.join(s.dir, "conf-split")).readline().strip() or "23")
+            env = {"C07_QQBIN": qq, "C07_RQQBIN": rqq, "C07_SPLIT": str(split), "C07_TMP": s.dir}
             drv = driver_path("drv_c07")
+            curdir = os.path.join(s.dir, "cur")
+            os.makedirs(curdir, exist_ok=True)
+            ncur = [0]
 
-            def all_on(path):
-                return "(" + " && ".join(["%s - < %s" % (hs[n], path) for n, _, _ in HARNESSES] + ["%s - < %s" % (hdate, path)]) + ")"
+            def hcmd(name, args, exe=None):
+                """one harness invocation; the case it is working on is kept in a file of its own (see crashed_cases)"""
+                ncur[0] += 1
+                return "C07_CUR=%s/%s-%d %s %s" % (curdir, name, ncur[0], exe or hs[name], args)
+
+            def all_on(path, only=None, exes=None):
+                return "(" + " && ".join([hcmd(n, "- < %s" % path, (exes or {}).get(n)) for n, _, _ in HARNESSES if not only or n in only] +
+                                         ([] if only else ["%s - < %s" % (hdate, path)])) + ")"
+
+            def crashed_cases():
+                """cases left behind by harness processes that were killed inside the code under test (ASan / UBSan abort, signal):
+                {harness name: [case line, ...]}"""
+                res = {}
+                for fn in sorted(os.listdir(curdir)):
+                    try:
+                        line = open(os.path.join(curdir, fn)).read().strip()
+                    except OSError:
+                        continue
+                    os.unlink(os.path.join(curdir, fn))
+                    if line:
+                        res.setdefault(fn.rsplit("-", 1)[0], []).append(line)
+                return res
+
+            def plain_harness(name):
+                """the same harness with the daemon's translation unit compiled WITHOUT sanitizer instrumentation (the production
+                code generation), linked with the sanitised libraries: what the shipped binary does on an input that stops the
+                instrumented build"""
+                like, excl = [(l, e) for n, l, e in HARNESSES if n == name][0]
+                largs = s.load_args(like)
+                for o in excl:
+                    largs = re.sub(r"(^|\s)%s(\s|$)" % re.escape(o), " ", largs)
+                obj, exe = os.path.join(s.dir, "hp_c07_%s.o" % name), os.path.join(s.dir, "hp_c07_" + name)
+                sh("cc -g -O1 -w -I. -I%s/harness -c %s -o %s" % (VERIF, os.path.join(VERIF, "harness", "c07_%s.c" % name), obj), cwd=s.dir, check=True)
+                sh("cc %s -o %s %s %s" % (nqlib.SAN_LD, exe, obj, largs), cwd=s.dir, check=True)
+                return exe
+
+            def sanitizer_stops(errs):
+                """ORACLE lines for the cases that stopped an instrumented harness, with what the uninstrumented code does on them"""
+                lines = []
+                cc = crashed_cases()
+                for name, cases in cc.items():
+                    msg = ""
+                    for e in errs:
+                        m = re.search(r"(runtime error: [^\n]*|ERROR: AddressSanitizer: [^\n]*|SUMMARY: [^\n]*)", e)
+                        if m:
+                            msg = m.group(1)
+                            break
+                    more = []
+                    try:
+                        exe = plain_harness(name)
+                        tf = os.path.join(s.dir, "crash-%s.txt" % name)
+                        open(tf, "w").write("\n".join(cases) + "\n")
+                        o2 = run_pipeline([all_on(tf, only=[name], exes={name: exe})], drv, env=env)
+                        _, _, _, more, _ = parse_driver_output(o2)
+                        crashed_cases()      # (a second stop leaves a file behind: already reported)
+                    except Exception as ex:
+                        more = []
+                        c.notes.append("uninstrumented re-run failed: %r" % (ex,))
+                    more = [x for x in more if not is_known(x)]
+                    if more:
+                        lines += ["%s sanitizer=%s" % (x, (msg or "abort").replace(" ", "_")) for x in more]
+                    else:
+                        for cs in cases:
+                            lines.append("kind=sanitizer-abort what=the_daemon's_code_was_stopped_by_ASan/UBSan_on_this_session_(%s);_the_uninstrumented_build_shows_no_oracle_failure case=%s"
+                                         % ((msg or "abort").replace(" ", "_"), cs.replace(" ", "|")))
+                return lines
             cmds = []
             corpus = os.path.join(VERIF, "corpus", PROP + ".txt")
             if c.replay:
@@ -130,10 +205,14 @@ def main():
                 if os.path.exists(corpus):
                     cmds.append(all_on(corpus))
                 for i in range(NCPU):
-                    cmds.append("(" + " && ".join(["%s %d %d %d %d" % (hs[n], nrand[n], c.seed, i, NCPU) for n, _, _ in HARNESSES] +
-                                                  ["%s %d %d %d %d" % (hdate, NDATE[c.tier], c.seed, i, NCPU)]) + ")")
+                    # ';' between the harnesses: one of them being stopped by a sanitizer must not keep the others from running
+                    cmds.append("(rc=0; " + " ".join(["%s || rc=$?;" % hcmd(n, "%d %d %d %d" % (nrand[n], c.seed, i, NCPU)) for n, _, _ in HARNESSES] +
+                                                    ["%s %d %d %d %d || rc=$?;" % (hdate, NDATE[c.tier], c.seed, i, NCPU)]) + " exit $rc)")
             outs = run_pipeline(cmds, drv, env=env)
             stats, samples, disagree, oracle, errors = parse_driver_output(outs)
+            if errors:
+                # a harness that was stopped inside the daemon's code: the session it was running is a concrete failing input
+                oracle += sanitizer_stops(errors)
 
             def neighbourhood(dis):
                 cases = mutate_cases(dis, c.seed)
@@ -142,7 +221,9 @@ def main():
                 tf = os.path.join(s.dir, "nb.txt")
                 open(tf, "w").write("\n".join(cases) + "\n")
                 o2 = run_pipeline([all_on(tf)], drv, env=env)
-                st2, _, _, or2, _ = parse_driver_output(o2)
+                st2, _, _, or2, er2 = parse_driver_output(o2)
+                if er2:
+                    or2 += sanitizer_stops(er2)
                 c.cov["search_cases"] = st2.get("cases", 0)
                 or2 = [x for x in or2 if not is_known(x)]
                 return shortest(or2, key="case=") if or2 else None
